@@ -55,6 +55,11 @@ Fixpoint strip_parts (base p : list string) : option (list string) :=
   | _ :: _, [] => None
   end.
 
+Definition is_absolute (p : list string) : bool := match p with r :: _ => String.eqb r "/" | [] => false end.
+(* an absolute path is never relative to a relative one (different anchors), even to the empty path *)
+Definition relative_parts (base p : list string) : option (list string) :=
+  if is_absolute p && negb (is_absolute base) then None else strip_parts base p.
+
 (* p.parent: the root and the empty path are their own parents *)
 Definition parent_parts (l : list string) : list string :=
   match l with
@@ -74,8 +79,8 @@ Definition rel_json (o : option (list string)) : res json :=
 Definition rel_cwd (cwd : list string) (fp : fpath) : res json :=
   match fp with
   | FPNone => Err EBuiltin
-  | FPStr s => Ok (JStr (match strip_parts cwd (parts s) with Some r => unparts r | None => s end))
-  | FPList l => rel_json (first_some (map (fun s => strip_parts cwd (parts s)) l))
+  | FPStr s => Ok (JStr (match relative_parts cwd (parts s) with Some r => unparts r | None => s end))
+  | FPList l => rel_json (first_some (map (fun s => relative_parts cwd (parts s)) l))
   end.
 
 (* Object.relative_package_filepath: relative to the directory that contains the top-level package *)
@@ -84,12 +89,12 @@ Definition rel_pkg (pkg fp : fpath) : res json :=
   | FPNone, _ => Err EBuiltin
   | _, FPNone => Err EBuiltin
   | FPList pl, FPList l =>
-      rel_json (first_some (flat_map (fun p => map (fun s => strip_parts (parent_parts (parts p)) (parts s)) l) pl))
+      rel_json (first_some (flat_map (fun p => map (fun s => relative_parts (parent_parts (parts p)) (parts s)) l) pl))
   | FPStr p, FPList l =>
-      rel_json (first_some (map (fun s => strip_parts (parent_parts (parent_parts (parts p))) (parts s)) l))
+      rel_json (first_some (map (fun s => relative_parts (parent_parts (parent_parts (parts p))) (parts s)) l))
   | FPList pl, FPStr s =>
-      rel_json (first_some (map (fun p => strip_parts (parent_parts (parts p)) (parts s)) pl))
-  | FPStr p, FPStr s => rel_json (strip_parts (parent_parts (parent_parts (parts p))) (parts s))
+      rel_json (first_some (map (fun p => relative_parts (parent_parts (parts p)) (parts s)) pl))
+  | FPStr p, FPStr s => rel_json (relative_parts (parent_parts (parent_parts (parts p))) (parts s))
   end.
 
 (* ------------------------------------------------------------------------------------------------ *)
